@@ -4,7 +4,7 @@ import os
 import random
 import time
 
-from common import (ToolError, cfg_text, ensure_built, gen_scenarios, load_known, log, parse_mc, run_harness,
+from common import (HangFound, ToolError, cfg_text, ensure_built, gen_scenarios, load_known, log, parse_mc, run_harness,
                     save_replay, seed, tlc, trace_line, validate_traces, write_evidence)
 
 KTS = ["string", "bytes", "arr4", "u32", "i64", "u128"]
@@ -104,6 +104,21 @@ WITNESS = [
     # a content larger than any internal buffer or read step (300 000 bytes), shared, overwritten, removed, re-put
     [{"op": "put", "k": 2, "c": "H"}, {"op": "put", "k": 3, "c": "H"}, {"op": "put", "k": 2, "c": "G"}, {"op": "reopen"},
      {"op": "delr", "lo": ["I", 3], "hi": ["I", 3]}, {"op": "put", "k": 1, "c": "H"}, {"op": "abort", "k": 1, "c": "H"}, {"op": "reopen"}],
+    # the store is emptied exactly around a segment boundary, then used again
+    [{"op": "put", "k": 1, "c": "A"}, {"op": "put", "k": 2, "c": "B"}, {"op": "put", "k": 3, "c": "A"}, {"op": "del", "k": 3},
+     {"op": "delr", "lo": ["I", 1], "hi": ["I", 2]}, {"op": "reopen"}, {"op": "put", "k": 1, "c": "B"}, {"op": "reopen"}, {"op": "reopen"}],
+    # a checkpoint after every operation (also twice in a row, also with nothing new)
+    [{"op": "put", "k": 1, "c": "A"}, {"op": "ckpt"}, {"op": "put", "k": 2, "c": "A"}, {"op": "ckpt"}, {"op": "del", "k": 1}, {"op": "ckpt"},
+     {"op": "ckpt"}, {"op": "reopen"}, {"op": "put", "k": 2, "c": "B"}, {"op": "ckpt"}, {"op": "delr", "lo": ["U", 0], "hi": ["U", 0]},
+     {"op": "ckpt"}, {"op": "reopen"}, {"op": "ckpt"}, {"op": "reopen"}],
+    # reclaim a content and store it again (same and other key), repeatedly
+    [{"op": "put", "k": 1, "c": "A"}, {"op": "put", "k": 1, "c": "B"}, {"op": "put", "k": 2, "c": "A"}, {"op": "del", "k": 2},
+     {"op": "put", "k": 3, "c": "A"}, {"op": "put", "k": 3, "c": "A"}, {"op": "del", "k": 3}, {"op": "put", "k": 3, "c": "A"}, {"op": "reopen"},
+     {"op": "put", "k": 1, "c": "A"}, {"op": "delr", "lo": ["U", 0], "hi": ["U", 0]}, {"op": "put", "k": 4, "c": "B"}, {"op": "reopen"}],
+    # aborts: of the empty content (with and without a write call), over an existing value, then ordinary use
+    [{"op": "put", "k": 1, "c": "E"}, {"op": "abort", "k": 1, "c": "E"}, {"op": "abort", "k": 2, "c": "E"}, {"op": "abort", "k": 1, "c": "A"},
+     {"op": "put", "k": 2, "c": "A"}, {"op": "abort", "k": 2, "c": "C"}, {"op": "put", "k": 3, "c": "B"}, {"op": "abort", "k": 3, "c": "G"},
+     {"op": "put", "k": 3, "c": "C"}, {"op": "reopen"}],
 ]
 
 
@@ -214,6 +229,12 @@ def build_scenarios(prop, tier, rnd):
             add(ops, variants(i + off), {"mode": "plain"}, chunk=i)
         for i, ops in enumerate(long_):
             add(ops, variants(i + off), {"mode": "plain"}, chunk=i)
+        # the hand-written witnesses under EVERY segment size, both sync modes, several chunkings (incl. "no write call")
+        for wi, ops in enumerate(WITNESS):
+            for ni, n in enumerate(NS + [4]):
+                add(ops, {"kt": KTS[(wi + ni) % len(KTS)], "n": n, "sync": (wi + ni) % 2 == 0}, {"mode": "plain"}, chunk=[6, 0, 3, 2, 5][ni] + wi)
+        # one store with the pre-created directory tree (commit skips mkdir there): reclaim a content, store it again
+        add(WITNESS[9], {"kt": "string", "n": 3, "sync": True, "pre": True}, {"mode": "plain"}, chunk=1)
         # big-record key types
         for i, ops in enumerate(long_[: (10 if q else 100)]):
             add(ops, dict(variants(i), kt=["string_big", "bytes_big"][i % 2]), {"mode": "plain"}, chunk=i)
@@ -303,13 +324,14 @@ def build_scenarios(prop, tier, rnd):
             # no reopen/ckpt at the end: leave an uncheckpointed tail
             ops = [o for o in ops if o["op"] != "reopen"] if i % 2 else ops
             cfg = {"kt": ["string", "bytes", "i64", "string_big"][i % 4], "n": [3, 10000, 2][i % 3], "sync": True}
-            add(ops, cfg, {"mode": "damage", "stride": (3 if q else 1), "flipvals": ([255] if q else [1, 128, 255])}, chunk=i)
+            # every offset and every checksum/payload byte, also in the quick tier (a single unlucky byte matters)
+            add(ops, cfg, {"mode": "damage", "stride": 1, "flipvals": ([255] if q else [1, 128, 255])}, chunk=i)
         # crash images in which the un-checkpointed records span two segment files
         two = [[{"op": "put", "k": 1, "c": "A"}, {"op": "put", "k": 2, "c": "B"}, {"op": "put", "k": 3, "c": "A"}],
                [{"op": "put", "k": 1, "c": "A"}, {"op": "del", "k": 1}, {"op": "put", "k": 2, "c": "B"}, {"op": "put", "k": 3, "c": "E"}]]
         for i, ops in enumerate(two if q else two + walks[:20]):
             add(ops, {"kt": ["string", "bytes"][i % 2], "n": [2, 3][i % 2] if i < 2 else 2, "sync": True},
-                {"mode": "damage", "crash": "two_segments", "stride": (2 if q else 1), "flipvals": [255]}, chunk=i)
+                {"mode": "damage", "crash": "two_segments", "stride": 1, "flipvals": [255]}, chunk=i)
     elif prop == "C14":
         walks = random_walks(10 if q else 120, 5 if q else 8, rnd, keys=(1, 2), contents=("A", "B", "G"))
         fixed = [[{"op": "put", "k": 1, "c": "A"}, {"op": "put", "k": 1, "c": "B"}, {"op": "put", "k": 2, "c": "B"}, {"op": "del", "k": 2}],
@@ -317,10 +339,14 @@ def build_scenarios(prop, tier, rnd):
                  # faults while appending to a segment that earlier sessions already filled partly
                  [{"op": "put", "k": 1, "c": "A"}, {"op": "put", "k": 2, "c": "B"}, {"op": "reopen"}, {"op": "put", "k": 3, "c": "A"},
                   {"op": "del", "k": 1}, {"op": "reopen"}, {"op": "put", "k": 1, "c": "B"}, {"op": "ckpt"}, {"op": "put", "k": 2, "c": "A"}],
-                 [{"op": "put", "k": 1, "c": "G"}, {"op": "reopen"}, {"op": "put", "k": 1, "c": "A"}, {"op": "reopen"}, {"op": "del", "k": 1}]]
+                 [{"op": "put", "k": 1, "c": "G"}, {"op": "reopen"}, {"op": "put", "k": 1, "c": "A"}, {"op": "reopen"}, {"op": "del", "k": 1}],
+                 # a failed checkpoint (rollover or explicit) followed by checkpoints with nothing new, then a restart
+                 [{"op": "put", "k": 1, "c": "A"}, {"op": "put", "k": 2, "c": "B"}, {"op": "put", "k": 3, "c": "A"}, {"op": "ckpt"}, {"op": "ckpt"},
+                  {"op": "reopen"}, {"op": "put", "k": 1, "c": "B"}, {"op": "ckpt"}, {"op": "ckpt"}]]
         for i, ops in enumerate(fixed):
-            # the fixed histories also with one big segment (no rollover between the sessions)
+            # the fixed histories also with one big segment (no rollover between the sessions) and with tiny ones
             add(ops, {"kt": ["string", "bytes"][i % 2], "n": 10000, "sync": True}, {"mode": "fault", "errno": "EIO"}, chunk=i)
+            add(ops, {"kt": "string", "n": 2, "sync": True}, {"mode": "fault", "errno": "ENOSPC"}, chunk=i)
         for i, ops in enumerate(fixed + walks):
             cfg = {"kt": ["string", "bytes", "string_big"][i % 3], "n": [2, 10000, 3, 1][i % 4], "sync": True}
             add(ops, cfg, {"mode": "fault", "errno": ["EIO", "ENOSPC"][i % 2]}, chunk=i)
@@ -330,7 +356,9 @@ def build_scenarios(prop, tier, rnd):
             ops = [o for o in ops if o["op"] != "reopen"]
             for n in ([1, 2, 10000] if q else NS):
                 after = [{"op": "put", "k": 4, "c": "C"}, {"op": "put", "k": 3, "c": "G"}, {"op": "put", "k": 2, "c": "E"}, {"op": "del", "k": 4}]
-                trials = [{"n2": n2, "ver": v, "ops": after[: 1 + (n2 % 3)]} for n2 in NS for v in (4,)] + [{"n2": n, "ver": v} for v in (3, 5, 0)] + \
+                # every reopen value with both pre-creation requests (the flag must not open a way around the gate)
+                trials = [{"n2": n2, "ver": v, "pre2": p2, "ops": after[: 1 + (n2 % 3)]} for n2 in NS for v in (4,) for p2 in (False, True)] + \
+                         [{"n2": n, "ver": v, "pre2": p2} for v in (3, 5, 0) for p2 in (False, True)] + \
                          [{"n2": n, "ver": 4, "pre2": False, "ops": after},
                           # created without the pre-created tree, reopened by a caller who asks for it: the stored choice rules
                           {"n2": n, "ver": 4, "pre2": True, "ops": after}]
@@ -345,7 +373,9 @@ def build_scenarios(prop, tier, rnd):
 
 
 PROP_TAGS = {
-    "C01": ["C01:"], "C02": ["C02:"], "C07": ["C07:"], "C12": ["C12:"], "C13": ["C13:"],
+    # C13: "...and a concurrent or later transaction on the same key is unaffected": in C13's abort-heavy histories a
+    # later operation that shows wrong bytes, a wrong listing or wrong counts is a consequence of the abandoned one
+    "C01": ["C01:"], "C02": ["C02:"], "C07": ["C07:"], "C12": ["C12:"], "C13": ["C13:", "C01:", "C06:", "C07:", "C12:"],
     "C03": ["C03:"], "C06": ["C06:"], "C20": ["C20:"], "C08": ["C08:"], "C09": ["C09:"],
     # C19's scenarios continue to use the store after an admitted open (e.g. with the other pre-creation choice):
     # "does not change behaviour observably" is judged with the ordinary per-operation conjuncts
@@ -375,7 +405,20 @@ def run_seq_check(prop, tier, replay=None):
     log(f"[{prop}] {len(scen)} scenarios")
     # 2. the code: run, record
     t1 = time.time()
-    traces = run_harness(scen, prop, need_shim=need_shim)
+    try:
+        traces = run_harness(scen, prop, need_shim=need_shim)
+    except HangFound as hf:
+        # a call that never returned: reported with the scenario that was running (the rest of that shard is lost)
+        by = {json.dumps(s["id"]): s for s in scen}
+        for h in hf.hangs[:3]:
+            s = by.get(h["scenario"], {"id": h["scenario"]})
+            rp = save_replay(prop, {k: v for k, v in s.items() if not k.startswith("_")})
+            print(f"VIOLATION property={prop} replay={rp}")
+            log(f"[{prop}]   a call did not return within the watchdog time: scenario {h['scenario']} operation {h['op']}")
+        write_evidence(prop, tier, "model_checking",
+                       {"states": max(1, mc["states"]), "transitions": max(1, mc.get("transitions", 0)), "traces_validated_against_impl": 0,
+                        "samples": hf.hangs[:3], "hang": True}, time.time() - t0, len(hf.hangs), ["a call that does not return is a violation"])
+        return 1
     t2 = time.time()
     # 3. the verdict: TLC evaluates the recorded executions against the specification
     fails, st = validate_traces(traces)
